@@ -17,9 +17,9 @@ type baseAPI interface {
 	containers.JSONDeserializer
 }
 
-type predFn func(i, v int) bool
-type mapFn func(i, v int) (int, int)
-type cmpFn func(a, b int) int
+type predFn = func(i, v int) bool
+type mapFn = func(i, v int) (int, int)
+type cmpFn = func(a, b int) int
 
 type drv struct {
 	cfg     Config
@@ -79,10 +79,11 @@ type drv struct {
 	floor, ceiling func(k int) (int, int, bool)
 
 	// structure (hooks)
-	shape  func() string
-	height func() int
-	rawObs func() string
-	hasCost bool // RedBlackTree, AVLTree, BTree: X and cost components
+	shape   func() string
+	height  func() int
+	rawObs  func() string
+	hasCost bool // RedBlackTree, AVLTree, BTree: `cost` component
+	hasX    bool // X = comparator calls of Put / Remove (Machine.v: the three trees and TreeMap)
 
 	links       func() bool   // sane bit 1
 	fingerprint func() string // deep state, sane bit 6 and the harness-detected failures
